@@ -131,7 +131,9 @@ Qed.
 
 Lemma board_path_norm path : is_board_path (map (norm_snode true) path) = is_board_path path.
 Proof.
-  destruct path as [|s [|s2 tl]]; try reflexivity. cbn [map is_board_path]. rewrite norm_snode_idem. reflexivity.
+  destruct path as [|s [|s2 tl]]; try reflexivity.
+  - destruct s as [r|r|v]; try reflexivity. cbn [map norm_snode is_board_path]. rewrite lower_kw_idem. reflexivity.
+  - destruct s; reflexivity.
 Qed.
 
 Section RT.
